@@ -91,6 +91,10 @@ func clip(b []byte) string {
 
 func main() {
 	cmd := os.Args[1]
+	if cmd == "samples" {
+		writeSamples(os.Args[2])
+		return
+	}
 	f, err := os.Open(os.Args[2])
 	if err != nil {
 		panic(err)
